@@ -1,7 +1,7 @@
 """Frontlines: Fuel of War (C07): how the generic property runners drive it."""
 
 FAMILY = dict(
-    name="ffow", nargs=2, gen="ffow", retries=1, port=0, decode_property="C07", entry="ffow",
+    send_units=1, name="ffow", nargs=2, gen="ffow", retries=1, port=0, decode_property="C07", entry="ffow",
     describe=("FFOW `LSQ` info reply in A2S framing: 6 strings, big-endian game port and time left over boundary values, "
               "all server type / environment letters in both cases, port given / defaulted (ffow_dp)"),
 )
